@@ -39,6 +39,61 @@ def hostile_case(rng, idx, name):
     return "hostile-%s#%d" % (name, idx), s
 
 
+LONG_PRONS = {8: "G OW F AO R W ER D", 9: "G OW F AO R W ER D T", 12: "G OW F AO R W ER D T EH N M",
+              14: "G OW F AO R W ER D T EH N M IY T", 7: "G OW F AO R W ER"}
+
+
+def long_word_case(rng, idx, nph):
+    """a result whose LAST aligned word has many phones (the per-phone bookkeeping of the formatter adds up)"""
+    cfg = {"hmm": os.path.join(sut.REPO, "model", "en-us"),
+           "dict": os.path.join(sut.REPO, "tests", "data", "turtle.dic"), "loglevel": "FATAL"}
+    w = b"longword%d" % nph
+    s = list(decmatrix.audio_defs())
+    s.append("init " + decmatrix.hx(json.dumps(cfg)))
+    s.append("addword %s %s 1" % (w.hex(), LONG_PRONS[nph].encode().hex()))
+    s.append("align " + w.hex())
+    s.append("start")
+    aud = rng.choice(["cut", "head", "mid"])
+    n = decmatrix.AUDIO_LEN[aud]
+    off = 0
+    while off < n:
+        k = min(n - off, rng.randint(1500, 6000))
+        s.append("feed %s %d %d i16 0 0" % (aud, off, k))
+        off += k
+        s.append("json p%d %d %d" % (off, rng.choice([0, 1500]), rng.choice([1, 2])))
+    s.append("end")
+    for lvl in (0, 1, 2):
+        s.append("json fin 0 %d" % lvl)
+    s.append("free")
+    return "long-word-%d#%d" % (nph, idx), s
+
+
+def two_utterance_case(rng, idx):
+    """two utterances on one decoder; in the second (longer) one, alignment-level JSON is requested frame by frame
+    around the frame count at which the first one ended (anything cached from the first utterance must not
+    resurface)"""
+    cfg = {"hmm": os.path.join(sut.REPO, "model", "en-us"),
+           "dict": os.path.join(sut.REPO, "tests", "data", "turtle.dic"), "loglevel": "FATAL"}
+    s = list(decmatrix.audio_defs())
+    s.append("init " + decmatrix.hx(json.dumps(cfg)))
+    s.append("align " + decmatrix.hx("go forward ten meters"))
+    a1, n1 = "gf", decmatrix.AUDIO_LEN["gf"]
+    s += ["start", "feed %s 0 -1 i16 0 0" % a1, "end", "json u1 0 %d" % rng.choice([1, 2])]
+    frames1 = 1 + (n1 - 410) // 160 + 1
+    # second utterance: silence + the recording (longer than the first); one frame per call around the point
+    # where as many frames have been searched as the first utterance had in total
+    a2 = "silgf"
+    lead = 410 + (frames1 - 8) * 160
+    s += ["start", "feed %s 0 %d i16 0 0" % (a2, lead)]
+    off = lead
+    for k in range(16):
+        s.append("feed %s %d 160 i16 0 0" % (a2, off))
+        off += 160
+        s.append("json u2_%d 0 %d" % (k, rng.choice([1, 2])))
+    s += ["feed %s %d -1 i16 0 0" % (a2, off), "end", "json u2fin 0 1", "free"]
+    return "two-utterances#%d" % idx, s
+
+
 def classify(f):
     clause = f.clause or "unknown-clause"
     try:
@@ -92,6 +147,10 @@ def run(ctx):
             cases.append(decmatrix.make_case(rng, ctx, i, {"result", "partial", "json", "alignment"}, opts))
         for j, name in enumerate(sorted(HOSTILE)):
             cases.append(hostile_case(rng, n + j, name))
+        for j, nph in enumerate(sorted(LONG_PRONS)):
+            cases.append(long_word_case(rng, n + 100 + j, nph))
+        for j in range(4 if quick else 30):
+            cases.append(two_utterance_case(rng, n + 200 + j))
     by_id = dict(cases)
     chunks, crashes = decmatrix.run_cases(ctx, drv, cases)
     for eid, why in crashes:
